@@ -129,3 +129,38 @@ def lean_name(s):
 
 def lean_str(s):
     return '"' + s.replace("\\", "\\\\").replace('"', '\\"') + '"'
+
+
+def bytestr_to_arrays(src):
+    """`b"XFG\\0"` and `*b"XFG\\0"` are the array `[b'X', b'F', b'G', 0]` spelled differently: bring them to the array form"""
+    def conv(m):
+        body = m.group(1)
+        out, i = [], 0
+        while i < len(body):
+            c = body[i]
+            if c == "\\":
+                n = body[i + 1]
+                if n == "0": out.append("0"); i += 2
+                elif n == "x": out.append(str(int(body[i + 2:i + 4], 16))); i += 4
+                elif n == "n": out.append("10"); i += 2
+                elif n == "\\": out.append("92"); i += 2
+                else: out.append("b'\\%s'" % n); i += 2
+            else:
+                out.append("b'%s'" % c); i += 1
+        return "[" + ", ".join(out) + "]"
+    return re.sub(r'\*?b"((?:[^"\\]|\\.)*)"', conv, src)
+
+
+def subst_usize_consts(src):
+    """`const N: usize = 4;` used as an array length or repeat count"""
+    vals = {}
+    for m in re.finditer(r"const\s+(\w+)\s*:\s*usize\s*=\s*(\d+)\s*;", src):
+        vals[m.group(1)] = m.group(2)
+    for name in sorted(vals, key=len, reverse=True):
+        src = re.sub(r"(?<!const )\b%s\b(?!\s*:)" % re.escape(name), vals[name], src)
+    return src
+
+
+def expand_repeat_arrays(src):
+    """`[0_u8; 4]` is `[0_u8, 0_u8, 0_u8, 0_u8]`"""
+    return re.sub(r"\[\s*([^\[\];,]+?)\s*;\s*(\d+)\s*\](?!\s*>)", lambda m: "[" + ", ".join([m.group(1)] * int(m.group(2))) + "]" if int(m.group(2)) <= 16 and not re.fullmatch(r"u8|char|\w+::\w+", m.group(1)) else m.group(0), src)
